@@ -14,65 +14,65 @@ open ZoektModel.Query
 /-- **`doSelectRepoSet`**: for every loaded shard and every live document of it,
     the shard is selected and the rewritten query matches ⇔ the original `And` matches -/
 theorem doSelectRepoSet_union_partial (ctx : List Shard) (shards : List RShard) (cs : List Q)
-    (hwf : wf noEmpty true (.and cs) = true) (hH : HeadSafe shards cs)
+    (hwf : wf noEmpty true (.and cs) = true)
     (rs : RShard) (hrs : rs ∈ shards) (d : Doc) (hl : rs.shard.live d = true) :
     (rs ∈ (doSelectRepoSet shards cs).1 ∧ eval (doSelectRepoSet shards cs).2 ctx rs.shard d = true) ↔
       eval (.and cs) ctx rs.shard d = true :=
-  doSelectRepoSet_union ctx shards cs hwf hH rs hrs d hl
+  doSelectRepoSet_union ctx shards cs hwf rs hrs d hl
 
 /-- **C18, shard pre-selection and filter rewrite** (`selectRepoSet`): for all sets of loaded shards (simple and
     compound, tombstoned repositories, shards whose repository list could not be cached), all queries without
     `type:repo` nodes (replaced before, see `typerepo_equiv_partial`) and without empty `Branch` patterns (C05's
     known class), every shard `rs` and every live document `d` of it:
     `rs` is selected and the rewritten query matches `d`  ⇔  the original query matches `d`.
-    `HeadSafe`: if the first filter child of the top-level `And` is a single-entry `BranchesRepos` for the branch
-    `HEAD`, then in every listed repository `HEAD` names the first branch and only that one. -/
+    (No hypothesis on branch layouts: since the `fix:` commits the model's — and the code's — `BranchesRepos → Branch`
+    rewrite is guarded by "HEAD is the first and only so-named branch of every selected repository" and by a
+    non-empty branch name; `headFirstB_spec`, `replacement_head`.) -/
 theorem C18_union_partial (ctx : List Shard) (shards : List RShard) (q : Q)
-    (hwf : wf noEmpty true q = true) (hH : HeadSafe shards (topChildren q))
+    (hwf : wf noEmpty true q = true)
     (rs : RShard) (hrs : rs ∈ shards) (d : Doc) (hl : rs.shard.live d = true) :
     (rs ∈ (selectRepoSet shards q).1 ∧ eval (selectRepoSet shards q).2 ctx rs.shard d = true) ↔
       eval q ctx rs.shard d = true :=
-  selectRepoSet_union ctx shards q hwf hH rs hrs d hl
+  selectRepoSet_union ctx shards q hwf rs hrs d hl
 
 /-- **C18, `type:repo` pre-evaluation** (`typeRepoSearcher.eval`): replacing every `type:repo` sub-query, innermost
     first and under any nesting of and/or/not/type/boost, by the `RepoSet` of the repositories the sharded `List`
     returns for its child never changes which live documents of the corpus match, and leaves no `type:repo` node.
     Hypotheses: shards of the current format in which every live repository has a document (`GoodShards`, the
-    property's quantifier), `HEAD` naming the first branch of every listed repository (`GlobalHead`, needed only
-    because the inner `List` goes through `selectRepoSet`), no empty `Branch` pattern, no parser-internal wrapper. -/
-theorem typerepo_equiv_partial (shards : List RShard) (hg : GoodShards shards) (hh : GlobalHead shards) (q : Q)
+    property's quantifier), no empty `Branch` pattern, no parser-internal wrapper. -/
+theorem typerepo_equiv_partial (shards : List RShard) (hg : GoodShards shards) (q : Q)
     (hq : wf noEmpty false q = true) (hn : noScope q = true) :
     wf noEmpty true (typeRepoEval shards q) = true ∧
     ∀ s d, InCorpus (corpus shards) s d →
       eval (typeRepoEval shards q) (corpus shards) s d = eval q (corpus shards) s d :=
-  typeRepoEval_spec shards hg hh q hq hn
+  typeRepoEval_spec shards hg q hq hn
 
 /-- the sharded `List` returns exactly the repositories that have a live matching document in some shard -/
-theorem sharded_list_exact_partial (shards : List RShard) (hg : GoodShards shards) (hh : GlobalHead shards) (q : Q)
+theorem sharded_list_exact_partial (shards : List RShard) (hg : GoodShards shards) (q : Q)
     (hq : wf noEmpty true q = true) (n : Str) :
     n ∈ shardedListNames shards q ↔
       ∃ rs ∈ shards, ∃ d ∈ rs.shard.docs, rs.shard.live d = true ∧ repoName rs.shard d = some n ∧
         eval q (corpus shards) rs.shard d = true :=
-  shardedListNames_spec shards q hq hg hh n
+  shardedListNames_spec shards q hq hg n
 
 /-- **C18, end to end on the model**: what the searcher stack evaluates — replace `type:repo`, pre-select shards and
     rewrite the filter, then in each selected shard simplify against the shard, expand and evaluate — selects a live
     document of a loaded shard exactly when the *original* query matches it: the union of per-shard answers -/
-theorem C18_search_union_partial (shards : List RShard) (hg : GoodShards shards) (hh : GlobalHead shards) (q : Q)
+theorem C18_search_union_partial (shards : List RShard) (hg : GoodShards shards) (q : Q)
     (hq : wf noEmpty false q = true) (hn : noScope q = true)
     (rs : RShard) (hrs : rs ∈ shards) (d : Doc) (hd : d ∈ rs.shard.docs) (hl : rs.shard.live d = true) :
     (rs ∈ (selectRepoSet shards (typeRepoEval shards q)).1 ∧
       eval (expand (shardSimplify rs.shard (selectRepoSet shards (typeRepoEval shards q)).2)) (corpus shards) rs.shard d = true) ↔
     eval q (corpus shards) rs.shard d = true := by
   unfold typeRepoEval corpus
-  obtain ⟨w1, e1⟩ := typeRepoEval_spec shards hg hh q hq hn
+  obtain ⟨w1, e1⟩ := typeRepoEval_spec shards hg q hq hn
   have w2 := selectRepoSet_wf shards _ w1
   obtain ⟨hv, _⟩ := hg rs hrs
   have hin : InCorpus (shards.map (·.shard)) rs.shard d := ⟨List.mem_map.mpr ⟨rs, hrs, rfl⟩, hd, hl⟩
   obtain ⟨w3, e3⟩ := shardSimplify_pres (shards.map (·.shard)) (pb := noEmpty) rs.shard (branchOK_noEmpty _ _) hv _ w2
   have e4 := (expand_pres (scope_nt (shards.map (·.shard)) (InShard rs.shard)) _ w3).2 rs.shard d ⟨rfl, hl⟩
   rw [e4, e3 rs.shard d ⟨rfl, hl⟩, ← e1 rs.shard d hin]
-  exact selectRepoSet_union (shards.map (·.shard)) shards _ w1 (headSafe_of_global shards hh _) rs hrs d hl
+  exact selectRepoSet_union (shards.map (·.shard)) shards _ w1 rs hrs d hl
 
 /-- **C18, listing**: the aggregation of the per-shard entry lists (`shardedSearcher.List`, in any arrival order
     `perShard`) returns each repository name once, exactly the names some shard listed, each with its statistics
@@ -120,28 +120,22 @@ theorem table_selectRepoSet : Gen.selectRepoSetCases =
 theorem table_selectRepoSet_rewrite : Gen.selectRepoSetRewriteCases =
     ["*query.RepoSet", "*query.RepoIDs", "*query.Repo", "*query.Meta", "*query.BranchesRepos"] := by decide
 
-/-! ### the full statement is false on the unchanged tree (`HeadSafe` cannot be dropped): `BranchesRepos[HEAD:{1}]` on a
-    repository whose only branch is `main` — replayed on the real code by corpus/C18/branchesrepos-head.json -/
+/-! ### regression witnesses of the two defects fixed in /repo (corpus/C18): `BranchesRepos[HEAD:{1}]` on a repository
+    whose only branch is `main` is no longer rewritten (before the fix it became `Branch{HEAD, exact}` = "first
+    branch" and matched); an empty branch name is no longer rewritten (it became TRUE) -/
 
 def exRepo : Repo := ⟨[97], 1, [[109, 97, 105, 110]], 42, [], false⟩
 def exDoc : Doc := ⟨0, [0], [102], [71, 111], [], [], []⟩
 def exShard : RShard := { shard := ⟨[exRepo], [[71, 111]], 12, [exDoc]⟩, failed := false }
 def exQ : Q := .branchesRepos [(HEAD, [1])]
 
-theorem C18_union_full_false :
-    ¬ ∀ (ctx : List Shard) (shards : List RShard) (q : Q), wf noEmpty true q = true →
-      ∀ rs ∈ shards, ∀ d, rs.shard.live d = true →
-        ((rs ∈ (selectRepoSet shards q).1 ∧ eval (selectRepoSet shards q).2 ctx rs.shard d = true) ↔
-          eval q ctx rs.shard d = true) := by
-  intro h
-  have h1 := h [] [exShard] exQ (by decide) exShard (by simp) exDoc (by decide)
-  have h2 : eval (selectRepoSet [exShard] exQ).2 [] exShard.shard exDoc = true := by decide
-  have h3 : eval exQ [] exShard.shard exDoc = false := by decide
-  have h4 : exShard ∈ (selectRepoSet [exShard] exQ).1 := by
-    have : (selectRepoSet [exShard] exQ).1 = [exShard] := by rfl
-    rw [this]; simp
-  rw [h3] at h1
-  exact absurd (h1.1 ⟨h4, h2⟩) (by simp)
+example : (selectRepoSet [exShard] exQ).2 = exQ := by rfl
+example : eval (selectRepoSet [exShard] exQ).2 [] exShard.shard exDoc = false ∧ eval exQ [] exShard.shard exDoc = false := by
+  decide
+example : (selectRepoSet [exShard] (.branchesRepos [([], [1])])).2 = .branchesRepos [([], [1])] := by rfl
+/-- the unguarded rewrite is not an equivalence here: `Branch{HEAD, exact}` matches, `BranchesRepos[HEAD]` does not -/
+theorem head_rewrite_unguarded_false :
+    eval (.branch HEAD true) [] exShard.shard exDoc ≠ eval exQ [] exShard.shard exDoc := by decide
 
 /-! non-vacuity: a selection that drops a shard and rewrites the filter -/
 def exRepoB : Repo := ⟨[98], 2, [HEAD], 42, [], false⟩
@@ -149,18 +143,10 @@ def exShardB : RShard := { shard := ⟨[exRepoB], [], 12, [⟨0, [0], [103], [],
 example : ((selectRepoSet [exShard, exShardB] (.and [.repoIDs [2], .substr [102] false false false])).1.map (·.pos),
     (selectRepoSet [exShard, exShardB] (.and [.repoIDs [2], .substr [102] false false false])).2)
     = ([1], .substr [102] false false false) := by rfl
-example : HeadSafe [exShardB] (topChildren (.branchesRepos [(HEAD, [2])])) := by
-  intro i l p br _ _ _ rs hrs r hr
-  simp at hrs; subst hrs
-  have : r = exRepoB := by simpa [RShard.listed, exShardB, exRepoB] using hr
-  subst this
-  intro j
-  cases j with
-  | zero => simp [exRepoB]
-  | succ k => simp [exRepoB, HEAD]
-
-example : GoodShards [exShardB] ∧ GlobalHead [exShardB] := by
-  refine ⟨?_, ?_⟩
+/-- with HEAD first the rewrite does happen -/
+example : (selectRepoSet [exShardB] (.and [.branchesRepos [(HEAD, [2])], .substr [102] false false false])).2
+    = .and [.branch HEAD true, .substr [102] false false false] := by rfl
+example : GoodShards [exShardB] := by
   · intro rs hrs
     simp at hrs; subst hrs
     refine ⟨by decide, ?_⟩
@@ -168,14 +154,6 @@ example : GoodShards [exShardB] ∧ GlobalHead [exShardB] := by
     have : r = exRepoB := by simpa [exShardB] using hr
     subst this
     exact ⟨⟨0, [0], [103], [], [], [], []⟩, by simp [exShardB], by simp [Shard.repoOf, exShardB]⟩
-  · intro rs hrs r hr
-    simp at hrs; subst hrs
-    have : r = exRepoB := by simpa [RShard.listed, exShardB, exRepoB] using hr
-    subst this
-    intro j
-    cases j with
-    | zero => simp [exRepoB]
-    | succ k => simp [exRepoB, HEAD]
 example : typeRepoEval [exShardB] (.and [.type 2 (.const true), .not (.type 2 (.repoIDs [9]))])
     = .and [.repoSet [([98], true)], .not (.repoSet [])] := by rfl
 
